@@ -4,7 +4,7 @@ from vx.extract import C
 
 PROPS = ['C07', 'C01']
 
-HEADER = 'use vstd::prelude::*;\nuse vstd::std_specs::iter::IteratorSpec;\nverus! {\n'
+HEADER = 'use vstd::prelude::*;\nuse vstd::std_specs::iter::IteratorSpec;\nuse vstd::std_specs::cmp::OrdSpec;\nverus! {\n'
 FOOTER = '\n} // verus!\nfn main() {}\n'
 
 
@@ -12,6 +12,7 @@ def build(repo, findings):
     u = Unit('U6', 'base#digits literal parser vs bash digit table', repo, ['C07'], safety_props=['C01', 'C07'])
     src = u.source('brush-parser/src/arithmetic.rs')
     u.raw(HEADER)
+    u.prelude('std/int_ops.rs')
     u.prelude('arith/literal_spec.rs')
     f = src.item(r'^fn parse_shell_literal_number\(', 'parse_shell_literal_number').r1().r11()
     f.sig(ret='res', ensures=[
